@@ -153,3 +153,50 @@ theorem lev_triangle (a b c : List α) : lev a c ≤ lev a b + lev b c := by
   exact Nat.le_trans (Ed_lev h) hp
 
 end Prs
+
+namespace Prs
+variable {α : Type} [DecidableEq α]
+
+omit [DecidableEq α] in
+theorem Ed_symm {n : Nat} {a b : List α} (h : Ed n a b) : Ed n b a := by
+  induction h with
+  | nil => exact Ed.nil
+  | keep c _ ih => exact Ed.keep c ih
+  | sub x y _ ih => exact Ed.sub y x ih
+  | del x _ ih => exact Ed.ins x ih
+  | ins y _ ih => exact Ed.del y ih
+
+theorem lev_comm (a b : List α) : lev a b = lev b a :=
+  Nat.le_antisymm (Ed_lev (Ed_symm (lev_Ed b a))) (Ed_lev (Ed_symm (lev_Ed a b)))
+
+omit [DecidableEq α] in
+theorem Ed_refl : ∀ s : List α, Ed 0 s s
+  | [] => Ed.nil
+  | c :: s => Ed.keep c (Ed_refl s)
+
+omit [DecidableEq α] in
+theorem Ed_zero_eq {n : Nat} {a b : List α} (h : Ed n a b) : n = 0 → a = b := by
+  induction h with
+  | nil => intro; rfl
+  | keep c _ ih => intro h0; rw [ih h0]
+  | sub | del | ins => intro h0; omega
+
+theorem lev_self (s : List α) : lev s s = 0 := Nat.le_zero.mp (Ed_lev (Ed_refl s))
+
+theorem lev_eq_zero {a b : List α} (h : lev a b = 0) : a = b := by
+  have := lev_Ed a b; rw [h] at this; exact Ed_zero_eq this rfl
+
+theorem lev_eq_zero_iff (a b : List α) : lev a b = 0 ↔ a = b :=
+  ⟨lev_eq_zero, fun h => h ▸ lev_self a⟩
+
+omit [DecidableEq α] in
+/-- an alignment changes the length by at most its cost -/
+theorem Ed_length {n : Nat} {a b : List α} (h : Ed n a b) :
+    a.length ≤ b.length + n ∧ b.length ≤ a.length + n := by
+  induction h with
+  | nil => simp
+  | keep | sub | del | ins => simp only [List.length_cons]; omega
+
+theorem lev_length (a b : List α) : a.length ≤ b.length + lev a b ∧ b.length ≤ a.length + lev a b :=
+  Ed_length (lev_Ed a b)
+end Prs
